@@ -24,7 +24,7 @@ PROBES = {
             "call:raise-after-reject", "call:zero-step", "reject=0", "strategy:Constant", "strategy:Adaptive",
             "strategy:TrustRegion", "damping:clamped-min", "damping:clamped-max", "trust:down-shrunk",
             "trust:down-reset", "GN", "group-param", "float32", "scripted", "input-form:dict", "input-form:list", "input-form:single"],
-    "C07": ["lm:first-trial", "lm:trial>=2", "gn", "weights:RR", "weights:NRR", "weights:full", "weights:refreshed-in-place", "kernel", "triggs",
+    "C07": ["lm:first-trial", "lm:trial>=2", "gn", "weights:RR", "weights:NRR", "weights:full", "weights:refreshed-in-place", "weights:per-call-alternating", "kernel", "triggs",
             "clamp-min-bites", "clamp-max-bites", "frozen-param", "group-param", "vectorize-off", "two-residuals",
             "unused-columns", "input-form:dict", "input-form:list", "input-form:single"],
 }
@@ -70,7 +70,7 @@ def generate(seed, tier, prop="C08"):
            "kernel": kern, "corrector": corr,
            "weights": r.choice(["none", "RR", "NRR", "full"]) if (prop == "C07" and not scripted) else
                       r.choice(["none", "none", "RR"]) if not scripted else "none",
-           "weight_at": r.choice(["ctor", "step"]), "reweight": r.random() < 0.3, "vectorize": r.random() < 0.8,
+           "weight_at": r.choice(["ctor", "step", "alternate"]), "reweight": r.random() < 0.3, "vectorize": r.random() < 0.8,
            "input_form": r.choice(["tuple", "tuple", "list", "dict", "single"]),
            "dtype": "f64" if (prop == "C07" or r.random() < 0.6) else "f32",
            "target": (not scripted) and r.random() < 0.3, "spec": spec}
@@ -374,8 +374,15 @@ def execute(plan, prop, out, tr):
     solver = SolverProxy(inner, model, plan["faults"], out, s, scripted)
     st = c["strategy"]
     strat = None
-    ctor_w = weight if c["weight_at"] == "ctor" else None
+    ctor_w = weight if c["weight_at"] in ("ctor", "alternate") else None
     step_w = weight if c["weight_at"] == "step" else None
+    # "alternate": a constructor weight W0, and on even calls a different per-call weight W1 that must apply to that
+    # call only
+    alt_w = None
+    if c["weight_at"] == "alternate" and weight is not None:
+        alt_w = [w_ * 3.0 + 0.5 * torch.eye(w_.shape[-1], dtype=w_.dtype) for w_ in (weight if isinstance(weight, (list, tuple)) else [weight])]
+        alt_w = alt_w if isinstance(weight, (list, tuple)) else alt_w[0]
+        out.probe("weights:per-call-alternating")
     if c["opt"] == "LM":
         if st["kind"] == "Constant":
             real = pp.optim.strategy.Constant(damping=st["damping"])
@@ -442,6 +449,10 @@ def execute(plan, prop, out, tr):
             for wt in (weight if isinstance(weight, (list, tuple)) else [weight]):
                 wt.mul_(1.0 + 0.5 * ((rng.H(s, "rew", ci) % 7) - 2))
             out.probe("weights:refreshed-in-place")
+        call_w = weight
+        if alt_w is not None:
+            step_w = alt_w if ci % 2 == 0 else None
+            call_w = alt_w if ci % 2 == 0 else weight
         p_s = om.snapshot(model)
         L_s = hloss()
         if not math.isfinite(L_s):
@@ -601,7 +612,7 @@ def execute(plan, prop, out, tr):
                 out.nontrivial = True
         # =============================== C07 ===============================
         else:
-            _c07_call(c, model, kinds, data, targets, weight, opt, srec, trec, p_s, p_e, damp0, out, ci, plan, tr)
+            _c07_call(c, model, kinds, data, targets, call_w, opt, srec, trec, p_s, p_e, damp0, out, ci, plan, tr)
             out.nontrivial = True
             out.sigs.add("%s|%s|%s|%s|%s|n%d" % (c["opt"], c["weights"], c["corrector"], c["solver"],
                                                  "+".join(r_["tpl"] for r_ in spec["residuals"]), min(n_solves, 4)))
@@ -677,7 +688,7 @@ def _damping_oracle(c, st, trec, pg, out, ci, L_s, dtype):
 def _residuals(model, data, targets):
     with torch.no_grad():
         o = model(*data)
-    outs = list(o) if isinstance(o, tuple) else [o]
+    outs = [r_.detach().clone() for r_ in (list(o) if isinstance(o, tuple) else [o])]   # a model may return a parameter itself
     if targets is not None:
         outs = [r_ - t for r_, t in zip(outs, targets)]
     return outs
